@@ -193,17 +193,17 @@ Definition request := (bbox * (Z * Z))%type.
 (* one creation step: the upstream requests it makes, the tiles handed to one store call *)
 Definition step := (list request * list coord)%type.
 
-Fixpoint bbox_mem (b : bbox) (l : list bbox) : bool :=
-  match l with [] => false | x :: r => bbox_eqb b x || bbox_mem b r end.
+Fixpoint coord_mem (c : coord) (l : list coord) : bool :=
+  match l with [] => false | x :: r => coord_eqb c x || coord_mem c r end.
 
-(* the loop "if meta_tile.bbox not in meta_bboxes" *)
-Fixpoint dedup_meta (m : mgrid) (tiles : list coord) (seen : list bbox) : list metatile :=
+(* the loop "if main_tile not in main_tiles": meta tiles are identified by their main tile *)
+Fixpoint dedup_meta (m : mgrid) (tiles : list coord) (seen : list coord) : list metatile :=
   match tiles with
   | [] => []
   | (x, y, z) :: rest =>
-    let mt := meta_tile m x y z in
-    if bbox_mem (mt_bbox mt) seen then dedup_meta m rest seen
-    else mt :: dedup_meta m rest (mt_bbox mt :: seen)
+    let mt := main_tile m x y z in
+    if coord_mem mt seen then dedup_meta m rest seen
+    else meta_tile m x y z :: dedup_meta m rest (mt :: seen)
   end.
 
 Definition tile_request (g : grid) (c : coord) : request :=
